@@ -64,11 +64,9 @@ ASSUMPTIONS = [
     "fresh ephemerals/identifiers: the originator draws a new ephemeral per attempt (checked on every run: "
     "a repeated ephemeral is reported as a correspondence disagreement)",
     "16-bit identifier collisions are inputs of the model (theorems cover them through the MAC check)",
-    "JoinTimely / RunTimely (hypothesis of the joined_*_partial theorems, only for the `.join` event = a join_circuit "
-    "resumed after an overridden, suspending should_join_circuit): the id is not taken while the join is suspended. NOT "
-    "guaranteed by the code and falsifiable by the next hop (CREATE under the relay's reserved outgoing id); the Python "
-    "endpoint stays functional in that state because process_cell serves relay routes before exit sockets (trusted, "
-    "exercised by scenario id-squat/suspended, counted as state:id-is-exit-socket-and-relay-route)",
+    "the crypto layer (PythonCryptoEndpoint) listens on every interface of the node's endpoint and hands EXTEND/EXTENDED "
+    "to the community only after they decrypted under the circuit's keys: modelled as deliverCell, tied by raw-inject "
+    "scenarios on dual-stack nodes; the onion layering itself is property C04",
     "joined-side stability (Props section 6) is about the modelled events of `Ev` (twelve); explicit removals of exit sockets / "
     "relay routes (destroy, inactivity sweep, unload) are not events of this model (C05/C09/C11)",
     "a node that also relays: the .created rejection theorems assume its CreateRequestCache does not claim the "
@@ -287,10 +285,11 @@ class Sym:
 
 
 class Held:
-    __slots__ = ("src", "dst", "data", "seq", "kind", "cid", "from_idx")
+    __slots__ = ("src", "dst", "data", "seq", "kind", "cid", "from_idx", "via")
 
-    def __init__(self, src, dst, data, seq, kind, cid, from_idx):
+    def __init__(self, src, dst, data, seq, kind, cid, from_idx, via=None):
         self.src, self.dst, self.data, self.seq, self.kind, self.cid, self.from_idx = src, dst, data, seq, kind, cid, from_idx
+        self.via = via          # the interface endpoint the datagram arrives on (None: the node's only / IPv4 one)
 
 
 class Proxy:
@@ -298,7 +297,7 @@ class Proxy:
         self.world, self.idx, self.ep = world, idx, ep
 
     def notify_listeners(self, packet):
-        self.world.on_wire(self.idx, packet)
+        self.world.on_wire(self.idx, packet, self.ep)
 
 
 class World:
@@ -326,6 +325,9 @@ class World:
         self.history = []        # every cell delivered so far (dst, src, bytes) — material for replays
         self.established = {}    # (cid, k) -> responder end of a hop accepted with genuine material
         self.nongenuine = set()  # circuits with a hop accepted on non-genuine material (no agreement expected)
+        # nodes that run on a DispatcherEndpoint with an IPv4 and an IPv6 interface (the default production layout)
+        self.dual = set(desc.get("dual", ())) if isinstance(desc, dict) else set()
+        self.v6 = {}
         self.gated = set()       # nodes whose should_join_circuit (documented override hook) really suspends
         self.gates = []          # (node idx, future) of joins suspended in that hook, oldest first
         self.joins = []          # join_circuit invocations during the current step: (idx, create payload)
@@ -361,7 +363,10 @@ class World:
                 s.circuit_timeout = nht * (self.comm.TunnelSettings.circuit_timeout
                                            // self.comm.TunnelSettings.next_hop_timeout)
             s.peer_flags = set(fl)
-            n = self.MockIPv8("curve25519", community_cls, settings=s)
+            if i in self.dual:
+                n = self._dualstack_node(community_cls, s, i)
+            else:
+                n = self.MockIPv8("curve25519", community_cls, settings=s)
             if hidden:
                 n.overlay.ipv8 = n
             n.overlay.cancel_all_pending_tasks()
@@ -382,9 +387,14 @@ class World:
         self.prefix = self.nodes[0].overlay.get_prefix()
         self.addr_idx = {}
         for i, n in enumerate(self.nodes):
-            for a in (n.endpoint.wan_address, n.endpoint.lan_address):
-                self.mep.internet[a] = Proxy(self, i, n.endpoint)
-                self.addr_idx[a] = i
+            if i in self.dual:
+                for ep in n.endpoint.interfaces.values():
+                    self.mep.internet[ep.wan_address] = Proxy(self, i, ep)
+                    self.addr_idx[ep.wan_address] = i
+            else:
+                for a in (n.endpoint.wan_address, n.endpoint.lan_address):
+                    self.mep.internet[a] = Proxy(self, i, n.endpoint)
+                    self.addr_idx[a] = i
             self._hook(i, n.overlay)
             if gated and i != 0:
                 self._gate(i, n.overlay)
@@ -506,6 +516,81 @@ class World:
         else:
             self.ctx.count("branch:extend-after-accept:candidate")
 
+    def _dualstack_node(self, community_cls, settings, i: int):
+        """a node on a real DispatcherEndpoint with an IPv4 and an IPv6 interface; both are in-memory endpoints"""
+        from ipv8.keyvault.crypto import default_eccrypto
+        from ipv8.messaging.interfaces.dispatcher import endpoint as dmod
+        from ipv8.messaging.interfaces.udp.endpoint import UDPv4Address, UDPv6Address
+        from ipv8.peer import Peer
+        from ipv8.peerdiscovery.network import Network
+        while True:
+            a4 = UDPv4Address("10.%d.%d.%d" % (self.rng.randrange(1, 250), self.rng.randrange(250), i + 1),
+                              self.rng.randrange(1024, 60000))
+            a6 = UDPv6Address("fd00::%x:%x" % (self.rng.randrange(1, 0xFFFF), i + 1), self.rng.randrange(1024, 60000))
+            if a4 not in self.mep.internet and a6 not in self.mep.internet:
+                break
+
+        def mk(a):
+            ep = self.mep.MockEndpoint(a, a)
+            ep.open()
+            return ep
+        saved = dict(dmod.INTERFACES)
+        dmod.INTERFACES["UDPIPv4"] = lambda: mk(a4)
+        dmod.INTERFACES["UDPIPv6"] = lambda: mk(a6)
+        try:
+            endpoint = dmod.DispatcherEndpoint(["UDPIPv4", "UDPIPv6"])
+        finally:
+            dmod.INTERFACES.clear()
+            dmod.INTERFACES.update(saved)
+        my_peer = Peer(default_eccrypto.generate_key("curve25519"), a4)
+        fwd = community_cls.settings_class(my_peer=my_peer, endpoint=endpoint, network=Network())
+        settings.__dict__.update(fwd.__dict__)
+        overlay = community_cls(settings)
+        overlay.my_estimated_wan = a4
+        overlay.my_estimated_lan = a4
+        endpoint.wan_address = a4          # convenience for the harness (the dispatcher itself has no address)
+        endpoint.lan_address = a4
+        self.v6[i] = a6
+
+        class Shim:
+            pass
+        sh = Shim()
+        sh.endpoint, sh.overlay, sh.my_peer, sh.network = endpoint, overlay, my_peer, overlay.network
+
+        async def stop():
+            for ep in endpoint.interfaces.values():
+                ep.close()
+            await overlay.unload()
+        sh.stop = stop
+        return sh
+
+    async def inject_raw(self, idx, cell_bytes, iface, src, line):
+        """a datagram that did NOT come out of anybody's onion encryption is handed to one interface of node idx; the
+        handshake handlers that need an authentic cell (EXTEND, EXTENDED) must not be entered"""
+        self.step_no += 1
+        self.calls, self.sent = [], []
+        before = self.snapshot()
+        self.tampered = True
+        ep = self.nodes[idx].endpoint.interfaces[iface] if idx in self.dual else self.nodes[idx].endpoint
+        try:
+            ep.notify_listeners((src, cell_bytes))
+        except Exception as e:  # noqa: BLE001
+            self.raised += 1
+            self.ctx.count(f"deliver-raised:{type(e).__name__}")
+        await self.settle()
+        entered = [(i, m) for i, m, p, _s in self.calls if m in (4, 5)]
+        self.ctx.count(f"raw-cell:{iface if idx in self.dual else 'single'}:" + ("HANDLED" if entered else "dropped"))
+        if entered:
+            self.ctx.oracle_fail("TunnelCommunity.on_cell:unauthenticated-cell-reached-handler",
+                                 f"a cell that was not encrypted under the keys of the circuit it names was handed to "
+                                 f"{'on_extend' if entered[0][1] == 4 else 'on_extended'} of node {idx + 1} "
+                                 f"(interface {iface})", self.replay_of("unauthenticated cell reached a handler"))
+        self._post()
+        # the model drops it before any handler: nothing emitted, state unchanged
+        self._record(f"{idx} raw {line}", "[] | " + self.state_s(idx))
+        self.oracle_after(before, [])
+        self.ctx.case((self.desc, self.step_no), True)
+
     def _gate(self, idx, ov):
         """override should_join_circuit (the hook is documented as meant to be overwritten) with a policy that really
         awaits: the join resumes only when the harness releases it; join_circuit invocations are recorded"""
@@ -536,6 +621,8 @@ class World:
         self.note_sends()
         P = self.pl
         if not self.joins:
+            # on_create's re-check after the await (fix 82c67e3) or the policy's "no" ended it before join_circuit
+            self.ctx.count("join-resumed:" + ("refused-id-taken" if accept else "policy-declined"))
             self._record(f"{idx} show", "[] | " + self.state_s(idx))
         for jidx, p in self.joins:
             emitted = [q for i, t, q in self.sent if i == jidx and isinstance(q, P.CreatedPayload)
@@ -555,15 +642,22 @@ class World:
         self.ctx.case((self.desc, self.step_no), True)
         return True
 
-    def on_wire(self, dst_idx, packet):
+    def node_ep(self, idx, via=None):
+        """the endpoint object a datagram for node idx is handed to: the given interface, else its (IPv4) endpoint"""
+        if via is not None:
+            return via
+        ep = self.nodes[idx].endpoint
+        return ep.interfaces["UDPIPv4"] if idx in self.dual else ep
+
+    def on_wire(self, dst_idx, packet, via=None):
         src, data = packet
         if data.startswith(self.prefix) and len(data) > 29 and data[22] == 0:
             cid, plain, _early = struct.unpack_from("!I??", data, 23)
             kind = data[29] if plain else -1
             self.seq += 1
-            self.pending.append(Held(src, dst_idx, data, self.seq, kind, cid, self.addr_idx.get(src, -1)))
+            self.pending.append(Held(src, dst_idx, data, self.seq, kind, cid, self.addr_idx.get(src, -1), via))
         else:
-            self.nodes[dst_idx].endpoint.notify_listeners(packet)
+            self.node_ep(dst_idx, via).notify_listeners(packet)
 
     async def settle(self):
         for _ in range(3):
@@ -577,8 +671,10 @@ class World:
         await asyncio.sleep(0.05)
 
     async def close(self):
-        for n in self.nodes:
-            for a in (n.endpoint.wan_address, n.endpoint.lan_address):
+        for i, n in enumerate(self.nodes):
+            addrs = [ep.wan_address for ep in n.endpoint.interfaces.values()] if i in self.dual \
+                else [n.endpoint.wan_address, n.endpoint.lan_address]
+            for a in addrs:
                 self.mep.internet.pop(a, None)
             try:
                 await n.stop()
@@ -1038,7 +1134,7 @@ class World:
         self.history.append(Held(src or h.src, h.dst, h.data if data is None else data, h.seq, h.kind, h.cid,
                                  h.from_idx))
         try:
-            self.nodes[h.dst].endpoint.notify_listeners((src or h.src, h.data if data is None else data))
+            self.node_ep(h.dst, h.via).notify_listeners((src or h.src, h.data if data is None else data))
         except Exception as e:  # noqa: BLE001
             self.raised += 1
             self.ctx.count(f"deliver-raised:{type(e).__name__}")
@@ -1910,6 +2006,55 @@ async def sc_flags(ctx, rng, desc):
         await w.close()
 
 
+async def sc_raw_inject(ctx, rng, desc, hops, when):
+    """somebody who saw a circuit id on the wire sends cells that never went through the onion layer — an unencrypted
+    EXTEND naming a node of his choice, with and without the plaintext flag, and an unencrypted EXTENDED — to every
+    interface (IPv4, IPv6) of every node on the path, while the hop is fresh (created cache alive) or later"""
+    w = await build_world(ctx, rng, desc)
+    try:
+        c = await start_circuit(w, hops)
+        await run_fifo(w, 120)
+        if when == "after-expiry":
+            await w.advance(w.t_created())
+        if c is not None:
+            ov = w.nodes[0].overlay
+            path = []           # (node idx, circuit id on its incoming link)
+            cid = c.circuit_id
+            for h in c.hops:
+                i = w.addr_idx.get(h.peer.address)
+                if i is None:
+                    break
+                path.append((i, cid))
+                rr = w.nodes[i].overlay.relay_from_to.get(cid)
+                if rr is None:
+                    break
+                cid = rr.circuit_id
+            others = [i for i in range(1, len(w.nodes)) if i not in [p for p, _ in path]]
+            for idx, lcid in path + [(0, c.circuit_id)]:
+                m = rng.choice(others)
+                mpeer = w.nodes[m].my_peer
+                x = w.new_attacker_key()
+                ident = rng.randrange(0xFFFF)
+                w.track(idx, [lcid])
+                ext = bytes([4]) + struct.pack("!HH", ident, len(mpeer.public_key.key_to_bin())) \
+                    + mpeer.public_key.key_to_bin() + struct.pack("!H", 32) + x.get_crypt_pk() \
+                    + w.ser.pack("ip_address", mpeer.address)
+                extd = bytes([5]) + struct.pack("!HH", ident, 32) + x.get_crypt_pk() + bytes(32) + b"\x00" * 8
+                ifaces = ["UDPIPv4", "UDPIPv6"] if idx in w.dual else ["single"]
+                for iface in ifaces:
+                    src = w.v6[m] if (iface == "UDPIPv6" and m in w.dual) else w.nodes[m].endpoint.wan_address
+                    for plain in (False, True):
+                        for msg, ln in ((ext, f"onextend {lcid} {ident} {m + 1} {w.sym.wire_s(x.get_crypt_pk())} 1 0 0"),
+                                        (extd, f"extended {lcid} {ident} {w.sym.wire_s(x.get_crypt_pk())} J/0 J/0 0 0 -")):
+                            cell = w.prefix + bytes([0]) + struct.pack("!I??", lcid, plain, True) + msg
+                            await w.inject_raw(idx, cell, iface, src, ln)
+                            await run_fifo(w, 40)
+        await w.finish()
+        return w
+    finally:
+        await w.close()
+
+
 async def sc_cross(ctx, rng, desc, hops, variant):
     """two circuits built at once; the first answers are exchanged between them (circuit id only / id + identifier)"""
     w = await build_world(ctx, rng, desc)
@@ -2239,6 +2384,11 @@ def scenario_list(ctx: Ctx, tier: str):
             for v in ("bad-only", "relays-then-bad", "bad-relay", "empty", "only-me", "garbage-bytes"):
                 out.append({"k": "bad-candidates", "hops": hops, "pos": pos, "variant": v})
         out.append({"k": "flags", "extra_nodes": True, "n": hops})
+        for when in ("fresh", "after-expiry"):
+            out.append({"k": "raw-inject", "hops": hops, "when": when, "dual": [1, 2, 3, 4, 5]})
+            out.append({"k": "raw-inject", "hops": hops, "when": when})
+        out.append({"k": "honest", "hops": hops, "dual": [1, 2, 3, 4, 5]})
+        out.append({"k": "honest", "hops": hops, "dual": [2, 4], "shuffle": True})
         if hops == 2:
             for order in ("third-party-first", "victim-first"):
                 for rep_ in range(2):
@@ -2323,6 +2473,8 @@ async def run_scenario(ctx, d: dict, sub_seed: int):
         return await sc_bad_candidates(ctx, rng, desc, d["hops"], d["pos"], d["variant"])
     if k == "third-party-extend":
         return await sc_third_party_extend(ctx, rng, desc, d["order"])
+    if k == "raw-inject":
+        return await sc_raw_inject(ctx, rng, desc, d["hops"], d["when"])
     if k == "flags":
         return await sc_flags(ctx, rng, desc)
     if k == "id-squat":
@@ -2412,9 +2564,10 @@ REQUIRED_BRANCHES = [
     "branch:pairing:paired", "branch:pairing:unknown-exit-socket", "branch:pairing:outgoing-id-in-use",
     "branch:pairing:other-circuit-id",
     "branch:retry-timeout:dropped", "branch:retry-timeout:resend-create", "branch:retry-timeout:resend-extend",
-    "join-resumed:joined", "join-resumed:refused", "timeout:create", "timeout:created",
+    "join-resumed:joined", "join-resumed:refused-id-taken", "join-resumed:policy-declined", "timeout:create", "timeout:created",
     "accept:genuine", "accept:non-genuine-material", "tampered:no", "tampered:yes", "e2e:probe",
     "overlay-class:TunnelCommunity", "overlay-class:HiddenTunnelCommunity",
+    "raw-cell:UDPIPv4:dropped", "raw-cell:UDPIPv6:dropped", "raw-cell:single:dropped",
 ]
 # listed in the design but NOT required: unreachable behind the Python dispatcher / after fix 4ca5f25
 UNREACHABLE_BRANCHES = ["branch:on_create:id-in-use-relay", "branch:answer:no-unverified-hop"]
